@@ -306,6 +306,17 @@ def run(ck, w):
     common.cli_option(ck, w, "C05.3c", "DeleteOptions", "dry_run", ("param", "dry_run"), floor=2)
     _references_complete(ck, w)
     common.list_blocks_present_set(ck, w, "C05.5i", "C05.5i0")
+    o = ck.ob("C05.4d", "delete_bands removes ALL unreferenced blocks it found: nothing takes a prefix or a part of the present-minus-referenced set")
+    dbb = w.body(DB)
+    diffs_ = [e for e in dbb.events if e.bb in dbb.live and re.search(r"HashSet::<T, S, A>::difference$", e.name)]
+    if not diffs_:
+        ck.fail(o, dbb.name, "anchor-missing", "no present.difference(referenced) in delete_bands")
+    else:
+        nar = [x for e in diffs_ for x in common.narrowing_uses(lib, dbb, e)]
+        if nar:
+            ck.fail(o, dbb.name, "only part of the unreferenced set is deleted", "%s is applied to the unreferenced set" % nar[0].name.split("::")[-1], nar[0].site())
+        else:
+            ck.ok(o, sites=[diffs_[0].site()])
 
 
 NARROWING = re.compile(r"Iterator::(rev|skip|take|step_by|filter|filter_map|take_while|skip_while|find|nth|last|map_while)$|<impl \[T\]>::(first|last|split_at|split_first|split_last|get)$|Vec::<T, A>::(truncate|pop|remove|swap_remove|drain|retain|dedup\w*)$")
